@@ -179,7 +179,7 @@ func (in *Interp) tick() {
 func (in *Interp) execList(a *act, list []*gen.Node) listResult {
 	var res listResult
 	for _, s := range list {
-		c, ret, v := in.execStmt(a, s)
+		c, ret, v := in.execStmtCatch(a, s)
 		if v != nil {
 			res.last = v
 		}
@@ -189,6 +189,29 @@ func (in *Interp) execList(a *act, list []*gen.Node) listResult {
 		}
 	}
 	return res
+}
+
+// holeJump carries a break / continue / return out of a template hole: the statement that was assembling the
+// template is abandoned and the jump takes effect as if it had been written at statement level (by code since fix
+// 2f57d30: the compiler closes the holes a break/continue leaves).
+type holeJump struct {
+	c   ctl
+	ret *Value
+}
+
+func (in *Interp) execStmtCatch(a *act, n *gen.Node) (c ctl, ret *Value, v *Value) {
+	hole := a.hole
+	defer func() {
+		if r := recover(); r != nil {
+			hj, ok := r.(*holeJump)
+			if !ok {
+				panic(r)
+			}
+			a.hole = hole
+			c, ret, v = hj.c, hj.ret, nil
+		}
+	}()
+	return in.execStmt(a, n)
 }
 
 // blockValue: an if / while statement yields null, and '' inside a template
